@@ -4,7 +4,8 @@ import Cgm.Trace.C01Idx
 
 Static text (written once by lib/gen_idx_all.py).  The per-tuple kernels of `Cgm/Trace/C01Idx*.lean` are put into a table
 indexed by `Fin n` tuples; `<table>_all` says that at every in-range tuple the traced code is the model's function and
-that the model returns there.  The corollaries below compose this with the property-level theorems about the model.
+that the model returns there.  (Nothing else is stated in this file; the compositions with the property-level theorems about the
+model are in `Cgm/E2E/C01i.lean`.)
 -/
 set_option linter.unusedSectionVars false
 set_option linter.unusedVariables false
